@@ -16,6 +16,11 @@ rule("C11.a", "persisted attributes (written in __init__, not popped by the writ
 rule("C11.b", "attributes written outside __init__ (scratch state of set-up) are removed by the writer", floor=2)
 rule("C11.c", "every constructor parameter is persisted under its own name (stored from that parameter, or forwarded to super().__init__)", floor=60)
 rule("C11.d", "Timegrid writer keys are constructor parameters and every state-determining parameter is written", floor=5)
+rule("C06.j", "plant / CHP classes: every constructor parameter is stored or forwarded to the base class constructor (last_dispatch, ramps, "
+              "runtimes ... reach the attributes the set-up reads)", floor=20)
+rule("C05.l", "storage: every constructor parameter is stored or forwarded", floor=10)
+rule("C02.g", "contracts and transports: every constructor parameter is stored or forwarded", floor=20)
+rule("C16.j", "scaled / structured / linked asset: every constructor parameter is stored or forwarded", floor=8)
 rule("C20.k", "order book: every constructor parameter (wacc, orders, full_exec ...) is stored or forwarded to the base class - what "
               "the set-up reads is what the user passed", floor=3)
 rule("C11.e", "every __class__ tag the writer emits has a reader branch reading only keys the writer wrote; datetime formats agree", floor=9)
@@ -198,7 +203,21 @@ def _find_hooks(ctx):
     return ser, writer, reader
 
 
-@analysis("serialization", ["C11.a", "C11.b", "C11.c", "C11.d", "C11.e", "C11.f", "C11.g", "C20.k"])
+def _projection(p, ci):
+    if ci.name == "OrderBook":
+        return "C20.k"
+    if p.is_subclass(ci, "CHPAsset"):
+        return "C06.j"
+    if ci.name == "Storage":
+        return "C05.l"
+    if ci.name in ("ScaledAsset", "StructuredAsset"):
+        return "C16.j"
+    if ci.name in ("SimpleContract", "Contract", "Transport", "ExtendedTransport", "MultiCommodityContract"):
+        return "C02.g"
+    return None
+
+
+@analysis("serialization", ["C11.a", "C11.b", "C11.c", "C11.d", "C11.e", "C11.f", "C11.g", "C20.k", "C06.j", "C05.l", "C02.g", "C16.j"])
 def run(ctx):
     p = ctx.p
     ser, writer, reader = _find_hooks(ctx)
@@ -313,12 +332,14 @@ def run(ctx):
             if lost:
                 why = "parameter %s is stored but the writer pops it for %s" % (q.name, ci.name)
             ctx.ob("C11.c", ci.name, "parameter %s" % q.name, ok, why, node=init.node)
-            if ci.name == "OrderBook":
-                # the same fact seen from C20: a parameter the order book accepts reaches the attribute its set-up reads
-                ctx.ob("C20.k", ci.name, "parameter %s" % q.name, ok,
-                       "OrderBook.__init__ accepts %s but neither stores it nor forwards it to Asset.__init__: the base class keeps its "
-                       "default, so e.g. a discount rate given to the order book never reaches the discount factors its costs use" % q.name,
-                       node=init.node)
+            # the same fact seen from the property of the asset type: a parameter the class accepts reaches the attribute its
+            # set-up reads (a Plant that swallows last_dispatch imposes the ramp against 0; an OrderBook that swallows wacc is
+            # never discounted)
+            proj = _projection(p, ci)
+            if proj:
+                ctx.ob(proj, ci.name, "parameter %s" % q.name, ok,
+                       "%s.__init__ accepts %s but neither stores it nor forwards it to the base class constructor: the base class "
+                       "keeps its default, so the value the user passed never reaches the set-up" % (ci.name, q.name), node=init.node)
 
     # =========================================================================== Timegrid: C11.d
     if "Timegrid" in by_class and "Timegrid" in rtags:
